@@ -51,7 +51,7 @@ def gen_src(rng, opts):
         parent = rng.pick(dirs); name = rng.pick(NAMES)
         rel = (parent + "/" if parent else "") + name
         if rel in tree: continue
-        n = F(gen_data(rng, big=opts.get("big") and rng.chance(1, 2)), BASE_T * 10**9 + rng.below(1000) * 10**9 + rng.pick([0, 0, 123_456_789, 999_999_999]))
+        n = F(gen_data(rng, big=opts.get("big") and rng.chance(1, 2)), BASE_T * 10**9 + (10 + rng.below(1000)) * 10**9 + rng.pick([0, 0, 123_456_789, 999_999_999]))
         if opts.get("xattrs") and rng.chance(1, 2):
             n["xattrs"] = {"user." + rng.pick(["a", "b", "k"]): rng.bytes(rng.range(0, 6)) for _ in range(rng.range(1, 2))}
         tree[rel] = n
@@ -85,11 +85,12 @@ def gen_dst(rng, src, opts):
     dst = {}
     for rel, n in src.items():
         k = rng.below(100)
+        parent = os.path.dirname(rel)
+        if parent and dst.get(parent, {}).get("k") != "d": continue          # keeps the tree well-formed: no orphan entries
         if n["k"] == "d":
             if k < 60: dst[rel] = D()
+            elif k < 64 and opts.get("conflicts"): dst[rel] = F(b"a file where the source has a directory")     # type conflict
             continue
-        parent = os.path.dirname(rel)
-        if parent and parent not in dst: continue          # keeps the tree well-formed: no orphan entries
         if n["k"] == "l":
             if k < 35: dst[rel] = L(n["text"])
             elif k < 50: dst[rel] = L(rng.pick(["other", "nowhere", n["text"] + "x"]))
@@ -102,6 +103,9 @@ def gen_dst(rng, src, opts):
         elif k < 80: dst[rel] = F(mutate_data(rng, n["data"]), n["mtime"])                       # stale, same mtime
         elif k < 90: dst[rel] = F(n["data"] + b"tail", n["mtime"] + off)
         elif k < 95 and opts.get("symlinks"): dst[rel] = L(rng.pick(["nowhere", "@OUT@/sentinel.txt", "@SRC@/" + rel]))   # type conflict: link where a file belongs
+        elif k < 98 and opts.get("conflicts"):                                                                             # type conflict: directory where a file belongs
+            dst[rel] = D()
+            if rng.chance(1, 2): dst[rel + "/inner"] = F(b"inner")
         else: dst[rel] = F(n["data"], n["mtime"] + off)
     # extras
     dirs = [""] + [r for r, n in dst.items() if n["k"] == "d"]
@@ -120,6 +124,7 @@ def gen_flags(rng, focus, caps):
     """-> (argv flags, cfg dict for the model, opts for generators, env)"""
     f, c, o, env = [], {}, {"extras": True}, {}
     o["symlinks"] = rng.chance(1, 2) if focus not in ("C17", "C02") else True
+    o["conflicts"] = rng.chance(1, 3) and focus in ("C01", "C10", "C19", "C06")
     links = rng.pick(["p", "p", "p", "f", "s"]) if o["symlinks"] else "p"
     if links == "f": f += ["--links", "follow"]
     if links == "s": f += ["--links", "skip"]
